@@ -108,6 +108,12 @@ func Arg(c ssa.CallInstruction, i int) ssa.Value {
 			return cc.Value
 		}
 		i--
+	} else if mk := BoundMethodClosure(c); mk != nil {
+		// a call through a method value: the bound receiver is argument 0
+		if i == 0 {
+			return mk.Bindings[0]
+		}
+		i--
 	}
 	if i < len(cc.Args) {
 		return cc.Args[i]
@@ -118,7 +124,7 @@ func Arg(c ssa.CallInstruction, i int) ssa.Value {
 // NArgs counts arguments incl. the receiver.
 func NArgs(c ssa.CallInstruction) int {
 	cc := c.Common()
-	if cc.IsInvoke() {
+	if cc.IsInvoke() || BoundMethodClosure(c) != nil {
 		return len(cc.Args) + 1
 	}
 	return len(cc.Args)
